@@ -38,6 +38,10 @@ if c == 'exit':
     sys.exit(3)
 if c == 'hard':
     os._exit(5)
+if c == 'linger':
+    # the process outlives the script body: a non-daemon thread keeps it alive
+    import threading
+    threading.Thread(target=time.sleep, args=(2.5,)).start()
 '''
 
 
